@@ -53,4 +53,62 @@ theorem save_load_collectives :
     loadColls true false = [.barrier] ∧ loadColls true true = [] ∧ loadColls false false = [] :=
   ⟨rfl, rfl, rfl, rfl, rfl, rfl, rfl⟩
 
+/-! ### value level: what the state holds, what a load leaves behind (added last) -/
+
+/-- **the saved state holds, for every layer of the world, exactly what that layer's inverse worker holds** —
+    on every rank (the merged dict is a function of the gathered partitions only), whatever the other ranks
+    hold for the layer and in whatever order the partitions are walked -/
+theorem merged_value {α : Type} (world : Nat) (layersOf : Nat → List String) (inv : String → Nat)
+    (held : Nat → String → α) (h : PlaceOK world layersOf inv) (n : String)
+    (hn : ∃ r, r < world ∧ n ∈ layersOf r) :
+    mergedVal world layersOf inv held n = some (held (inv n) n) :=
+  merged_value_l world layersOf inv held h.inv_holds n hn
+
+/-- … and nothing else: a name no rank holds is not in the state -/
+theorem merged_value_none {α : Type} (world : Nat) (layersOf : Nat → List String) (inv : String → Nat)
+    (held : Nat → String → α) (n : String) (hn : ¬ ∃ r, r < world ∧ n ∈ layersOf r) :
+    mergedVal world layersOf inv held n = none :=
+  merged_value_none_l world layersOf inv held n hn
+
+/-- what the other ranks hold for a layer never reaches the state: two worlds whose inverse workers hold the
+    same values save the same state -/
+theorem merged_value_only_inverse_worker {α : Type} (world : Nat) (layersOf : Nat → List String) (inv : String → Nat)
+    (held held' : Nat → String → α) (h : PlaceOK world layersOf inv)
+    (hh : ∀ n, held (inv n) n = held' (inv n) n) (n : String) :
+    mergedVal world layersOf inv held n = mergedVal world layersOf inv held' n := by
+  by_cases hn : ∃ r, r < world ∧ n ∈ layersOf r
+  · rw [merged_value world layersOf inv held h n hn, merged_value world layersOf inv held' h n hn, hh]
+  · rw [merged_value_none world layersOf inv held n hn, merged_value_none world layersOf inv held' n hn]
+
+/-- **save → load round trip**: after loading the saved state, every factor worker of a layer holds what the
+    layer's inverse worker held at the save, whatever it held before the load -/
+theorem save_load_roundtrip {α : Type} (world : Nat) (layersOf : Nat → List String) (inv : String → Nat)
+    (fw : Nat → String → Nat) (held old : Nat → String → α) (h : PlaceOK world layersOf inv)
+    (r : Nat) (n : String) (hr : r < world) (hn : n ∈ layersOf r) (hfw : fw r n = r) :
+    loadVal layersOf fw (mergedVal world layersOf inv held) old r n = held (inv n) n :=
+  loadVal_restored layersOf fw _ old r n _ hn hfw (merged_value world layersOf inv held h n ⟨r, hr, hn⟩)
+
+/-- frame: a load changes nothing on a rank that is not the factor worker of the layer (or does not hold it) -/
+theorem load_frame {α : Type} (layersOf : Nat → List String) (fw : Nat → String → Nat)
+    (state : String → Option α) (old : Nat → String → α) (r : Nat) (n : String)
+    (h : n ∉ layersOf r ∨ fw r n ≠ r) : loadVal layersOf fw state old r n = old r n :=
+  loadVal_frame layersOf fw state old r n h
+
+/-- a layer missing from the state is left as it is (the code walks the names FOUND in the state) -/
+theorem load_absent {α : Type} (layersOf : Nat → List String) (fw : Nat → String → Nat)
+    (state : String → Option α) (old : Nat → String → α) (r : Nat) (n : String)
+    (hs : state n = none) : loadVal layersOf fw state old r n = old r n :=
+  loadVal_absent layersOf fw state old r n hs
+
+/-- with model-parallel degree 1 every rank that holds a layer ends with the inverse worker's value: all
+    ranks of a stage agree after a load -/
+theorem roundtrip_all_agree_mp1 {α : Type} (world : Nat) (layersOf : Nat → List String) (inv : String → Nat)
+    (fw : Nat → String → Nat) (held old : Nat → String → α) (h : PlaceOK world layersOf inv)
+    (hfw : ∀ r n, fw r n = r) (r r' : Nat) (n : String) (hr : r < world) (hr' : r' < world)
+    (hn : n ∈ layersOf r) (hn' : n ∈ layersOf r') :
+    loadVal layersOf fw (mergedVal world layersOf inv held) old r n =
+      loadVal layersOf fw (mergedVal world layersOf inv held) old r' n := by
+  rw [save_load_roundtrip world layersOf inv fw held old h r n hr hn (hfw r n),
+      save_load_roundtrip world layersOf inv fw held old h r' n hr' hn' (hfw r' n)]
+
 end KV.C18
